@@ -231,6 +231,11 @@ inproc_pipe_close(void *arg)
 	inproc_pipe *pipe = arg;
 	inproc_pair *pair = pipe->pair;
 
+	if (pair == NULL) {
+		// Never paired (connection setup failed before the pair
+		// was attached), so nothing can be waiting on this pipe.
+		return;
+	}
 	for (int i = 0; i < 2; i++) {
 		inproc_queue *queue = &pair->queues[i];
 		nni_mtx_lock(&queue->lock);
